@@ -538,6 +538,19 @@ def run_compete(rec, case):
         if b_when == 'before-probe':
             wsB, tB = sim.upgrade_ws(h)
             sim.quiesce()
+        if b_when == 'accept-delayed':
+            # the second request is let in now, but the driver's part of its
+            # handshake takes so long that the session's own handler for it
+            # only starts after the first socket has completed the upgrade
+            wsB = sim.new_ws()
+            wsB.accept_delay = 0.5
+            tB = sim.request('GET', {'transport': 'websocket', 'EIO': '4',
+                                     'sid': h.sid},
+                             {'Upgrade': 'websocket',
+                              'Connection': 'Upgrade'}, ws=wsB)
+            tB.ws = wsB
+            wsB.ticket = tB
+            sim.quiesce()
         wsA.send('2probe')
         sim.quiesce()
         if b_when in ('after-probe', 'probes-early'):
@@ -549,6 +562,9 @@ def run_compete(rec, case):
             sim.quiesce()
         wsA.send('5')
         sim.quiesce()
+        if b_when == 'accept-delayed':
+            sim.advance(0.75)
+            sim.quiesce()
         if b_act == 'wrong-first':
             wsB.send('4x')
         elif b_act == 'close':
@@ -932,7 +948,8 @@ def plan(tier, seed):
             for when in ('before', 'during'):
                 cases.append({'slowdisc': [srv, call, when]})
     for srv in SRV[:2] + ['W']:   # (W: the real simple_websocket driver)
-        for b_when in ('before-probe', 'after-probe', 'probes-early'):
+        for b_when in ('before-probe', 'after-probe', 'probes-early',
+                       'accept-delayed'):
             for b_act in ('wrong-first', 'close', 'probe-then-wrong',
                           'probe-then-close', 'probe-then-upgrade'):
                 for a_end in ('client-close', 'disconnect', 'silence'):
